@@ -479,6 +479,7 @@ func runC07(r *Run) {
 	c07Crc(r)
 	c07ManyBlocks(r)
 	c01EveryBlockLength(r, false)
+	c03HugeSchema(r)
 	c07PanickingCallback(r)
 	nfiles := r.N(60, 500)
 	for i := 0; i < nfiles; i++ {
